@@ -183,6 +183,7 @@ func runCmd(args []string) {
 					continue
 				}
 			}
+			v.SchedDependent = hr.Spec.Opts.Sched
 			h := sha1.Sum([]byte(s))
 			v.ReplayFile = filepath.Join(verifDir, "replay", spec.ID, fmt.Sprintf("%s-%x.json", v.Harness, h[:6]))
 			rf := map[string]interface{}{"property": spec.ID, "pkg": hr.Spec.Pkg, "harness": v.Harness, "kind": v.Kind, "label": v.Label, "msg": v.Msg, "tags": v.Tags, "vals": v.Vals, "params": hr.Params, "sig": v.Sig}
@@ -517,12 +518,27 @@ func (r *replayer) replayOne(v *gosym.Violation) {
 	switch v.Kind {
 	case "assert":
 		v.Replayed = strings.Contains(s, "VERIF-ASSERT-FAIL "+v.Label+"\n")
+		if !v.Replayed && v.SchedDependent {
+			// the counterexample needs an interleaving: repeat the run with random delays at the VM's scheduling
+			// points (hooks under the verif build tag); it is confirmed only if one of the runs fails the same assertion
+			for attempt := 1; attempt <= 150 && !v.Replayed; attempt++ {
+				c := exec.Command(bin, "-test.run", "^TestVerifReplay$", "-test.timeout", "60s", "-test.v")
+				c.Dir = filepath.Join(repoDir, pkgRel)
+				c.Env = append(os.Environ(), "VERIF_REPLAY="+v.ReplayFile, "VERIF_HARNESS="+v.Harness, fmt.Sprintf("VERIF_CHAOS_SEED=%d", attempt), fmt.Sprintf("GOMAXPROCS=%d", 2+attempt%7))
+				o, _ := c.CombinedOutput()
+				if strings.Contains(string(o), "VERIF-ASSERT-FAIL "+v.Label+"\n") {
+					v.Replayed = true
+					v.ReplayOut = fmt.Sprintf("reproduced with VERIF_CHAOS_SEED=%d\n", attempt) + tail(string(o), 3000)
+				}
+			}
+		}
 	case "panic":
 		v.Replayed = strings.Contains(s, "VERIF-PANIC") || strings.Contains(s, "panic:") || strings.Contains(s, "fatal error:")
 	case "deadlock":
 		v.Replayed = strings.Contains(s, "all goroutines are asleep") || strings.Contains(s, "VERIF-REPLAY-TIMEOUT") || strings.Contains(s, "test timed out")
 	case "bound":
-		v.Replayed = strings.Contains(s, "VERIF-REPLAY-TIMEOUT") || strings.Contains(s, "test timed out")
+		// unbounded execution shows natively as a hang or, for unbounded recursion, as Go's fatal stack overflow
+		v.Replayed = strings.Contains(s, "VERIF-REPLAY-TIMEOUT") || strings.Contains(s, "test timed out") || strings.Contains(s, "goroutine stack exceeds") || strings.Contains(s, "fatal error: stack overflow")
 	case "race":
 		v.Replayed = strings.Contains(s, "DATA RACE")
 	}
